@@ -46,16 +46,16 @@ CHECKS = {
    design="4 C18", technique="symbolic execution of go/ssa + SMT, differential against abstract-value equality"),
  "C03": dict(
    text="Bounded symbolic model checking of (a) the validate.* kernels with fully symbolic parameters (validate.Int incl. multipleOf against an independently formulated reference; "
-        "count validators; String length in code points; UniqueItems) and (b) the Decode + Validate code GENERATED in this run for a matrix of 40 named schemas (integer bounds incl. "
+        "count validators; String length in code points; UniqueItems) and (b) the Decode + Validate code GENERATED in this run for a matrix of 43 named schemas (integer bounds incl. "
         "exclusive/negative, multipleOf, enums, string length, arrays with min/max/uniqueItems and item validation, objects with required/optional/nullable members, "
-        "additionalProperties:false, nesting, 10- and 18-member objects for the multi-byte required mask, three recursive schemas unfolded to depth 2, three allOf schemas, two maps, string-formatted uint64 members, three sum types incl. instances that carry the required members of two variants (exactly-one reference), zero upper bounds, property counts of maps, a JSON number and string-formatted float members with CONCRETE literals, unix timestamps as JSON numbers incl. 14-digit millisecond counts, uint64 strings around 2^63): schema-directed JSON texts (valid instances and single-keyword mutants) with "
+        "additionalProperties:false, nesting, 10- and 18-member objects for the multi-byte required mask, three recursive schemas unfolded to depth 2, three allOf schemas, two maps, string-formatted uint64 members, three discriminator sums (explicit mapping; top level, as a member, a variant with only the discriminator plus typed additional members; unknown / missing / mistyped discriminator values), three inferred sum types incl. instances that carry the required members of two variants (exactly-one reference), zero upper bounds, property counts of maps, a JSON number and string-formatted float members with CONCRETE literals, unix timestamps as JSON numbers incl. 14-digit millisecond counts, uint64 strings around 2^63): schema-directed JSON texts (valid instances and single-keyword mutants) with "
         "symbolic leaves are accepted exactly when a reference validator over the abstract value says valid. Two defects (absent optional array with minItems; name-based sum inference refusing value-discriminated documents) are carried as known findings. "
-        "Symbolic floats, pattern, discriminator sums, anyOf and deeper recursion are outside.",
+        "Symbolic floats, pattern, anyOf and deeper recursion are outside.",
    design="4 C03", technique="symbolic execution of go/ssa (runtime kernels and generated code) + SMT, differential against a reference validator"),
  "C04": dict(
    text="Bounded symbolic model checking of the Encode/Decode code GENERATED in this run for the C03 schema matrix: every accepted instance (symbolic leaves) is re-encoded; the "
         "encoding must be accepted again, decode(encode(v)) must re-encode to the same bytes, and the encoding must denote the same JSON value as the decoded text (so absent/null/"
-        "present states and array contents are preserved). Values are reached by decoding, equality is observed through encodings and json.Equal; floats, discriminator sums, deeper recursion outside.",
+        "present states and array contents are preserved). Values are reached by decoding, equality is observed through encodings and json.Equal; symbolic floats, anyOf, deeper recursion outside.",
    design="4 C04", technique="symbolic execution of generated Go (go/ssa) + SMT, round-trip assertions over symbolic JSON leaves"),
  "C09": dict(
    text="Bounded symbolic model checking of (a) internal/bitset.Set/Build and ir.JSONFields.RequiredMask (one step from an arbitrary state; byte boundaries to 20/33 members), "
